@@ -556,3 +556,203 @@ Qed.
 Lemma key_same_iff c1 c2 : c_name c1 = c_name c2 <->
   (if c_sname c1 =? 0 then c_addr c1 else c_sname c1) = (if c_sname c2 =? 0 then c_addr c2 else c_sname c2).
 Proof. unfold c_name. reflexivity. Qed.
+
+(* ---------- locality: a connection sees and changes only the entry under its own cache key ---------- *)
+Definition agree (k : N) (ca1 ca2 : cache) : Prop := lookup k ca1 = lookup k ca2.
+
+Lemma lookup_del_same k ca : lookup k (del k ca) = None.
+Proof.
+  unfold lookup, del. induction ca as [|[a s] r IH]; [reflexivity|]. cbn [filter fst].
+  destruct (a =? k) eqn:E; cbn [negb]; [exact IH|]. cbn [find fst]. rewrite E. exact IH.
+Qed.
+
+Lemma agree_del k ca1 ca2 : agree k (del k ca1) (del k ca2).
+Proof. unfold agree. rewrite !lookup_del_same. reflexivity. Qed.
+Lemma agree_put k s ca1 ca2 : agree k (put k s ca1) (put k s ca2).
+Proof. unfold agree. rewrite !lookup_put_same. reflexivity. Qed.
+
+Lemma load_local ca1 ca2 c e : agree (c_name c) ca1 ca2 ->
+  l_sess (load_session ca1 c e) = l_sess (load_session ca2 c e) /\
+  agree (c_name c) (l_cache (load_session ca1 c e)) (l_cache (load_session ca2 c e)).
+Proof.
+  intros A. unfold load_session. rewrite A. destruct (lookup (c_name c) ca2) as [s|]; [|split; [reflexivity|exact A]].
+  repeat match goal with |- context [if ?b then _ else _] => destruct b end; cbn [l_sess l_cache];
+  (split; [reflexivity|]); try exact A; apply agree_del.
+Qed.
+
+Definition built_agree (k : N) (b1 b2 : built) : Prop :=
+  match b1, b2 with
+  | BOk c1 o1 p1, BOk c2 o2 p2 => agree k c1 c2 /\ o1 = o2 /\ p1 = p2
+  | BErr c1 e1, BErr c2 e2 => agree k c1 c2 /\ e1 = e2
+  | BPanic c1 e1, BPanic c2 e2 => agree k c1 c2 /\ e1 = e2
+  | _, _ => False
+  end.
+
+Lemma build_local ca1 ca2 c : agree (c_name c) ca1 ca2 -> built_agree (c_name c) (build ca1 c) (build ca2 c).
+Proof.
+  intros A. unfold build. destruct (sp_go (c_spec c)).
+  - destruct (load_local ca1 ca2 c true A) as [S C]. rewrite S. cbn. auto.
+  - destruct (load_local ca1 ca2 c (has XEms (sp_exts (c_spec c))) A) as [S C]. rewrite S.
+    destruct (l_sess (load_session ca2 c (has XEms (sp_exts (c_spec c))))) as [[k0 s0]|];
+    cbv beta iota zeta;
+    repeat match goal with |- context [if ?b then _ else _] => destruct b end; cbn; auto.
+Qed.
+
+Lemma agree_fail k ca1 ca2 c off : k = c_name c -> agree k ca1 ca2 -> agree k (fail ca1 c off) (fail ca2 c off).
+Proof. intros -> A. unfold fail. destruct off; [apply agree_del|exact A]. Qed.
+
+Lemma step_local ca1 ca2 c : agree (c_name c) ca1 ca2 ->
+  snd (step ca1 c) = snd (step ca2 c) /\ agree (c_name c) (fst (step ca1 c)) (fst (step ca2 c)).
+Proof.
+  intros A. pose proof (build_local ca1 ca2 c A) as B. unfold step.
+  destruct (build ca1 c) as [c1 o1 p1|c1 e1|c1 e1], (build ca2 c) as [c2 o2 p2|c2 e2|c2 e2]; cbn in B; try contradiction.
+  - destruct B as [Ag [-> ->]].
+    pose proof (fun o => agree_fail _ _ _ c o eq_refl Ag) as F.
+    repeat match goal with |- context [match ?x with _ => _ end] => destruct x end; cbn [fst snd];
+    (split; [reflexivity|]); try apply F; try apply agree_put; exact Ag.
+  - destruct B as [Ag ->]. cbn. auto.
+  - destruct B as [Ag ->]. cbn. auto.
+Qed.
+
+(* observations of the connections whose cache key is k, in a history of arbitrary connections *)
+Fixpoint run_key (k : N) (ca : cache) (h : list conn) : list obs :=
+  match h with
+  | [] => []
+  | c :: r => let (ca', o) := step ca c in if c_name c =? k then o :: run_key k ca' r else run_key k ca' r
+  end.
+
+Lemma interleave_local h : forall ca1 ca2 k, agree k ca1 ca2 ->
+  run_key k ca1 h = run ca2 (filter (fun c => c_name c =? k) h).
+Proof.
+  induction h as [|c r IH]; intros ca1 ca2 k A; cbn [run_key filter run]; [reflexivity|].
+  destruct (c_name c =? k) eqn:E.
+  - apply N.eqb_eq in E. subst k. destruct (step_local ca1 ca2 c A) as [So Sc].
+    cbn [run]. destruct (step ca1 c) as [ca1' o1], (step ca2 c) as [ca2' o2]. cbn [fst snd] in *. subst o2.
+    f_equal. apply IH. exact Sc.
+  - apply N.eqb_neq in E. pose proof (step_other_keys ca1 c k (fun H => E (eq_sym H))) as K.
+    destruct (step ca1 c) as [ca1' o1]. cbn [fst] in K. apply IH. unfold agree. rewrite K. exact A.
+Qed.
+
+(* ---------- every later connection of a same-configuration history resumes ---------- *)
+Lemma step_resumed_expiry ca c v k s :
+  resumed (snd (step ca c)) = true -> o_offer (snd (step ca c)) = Some (k, s) ->
+  negotiate (c_srv c) (c_spec c) = Some v ->
+  (v = V13 -> has_modes (c_spec c) = true) -> (v <> V13 -> has_ticket (c_spec c) = true) ->
+  exists s', lookup (c_name c) (fst (step ca c)) = Some s' /\
+    s_notafter s' = s_notafter s /\ s_useby s' = c_now c + LIFETIME /\
+    (t_created (s_ticket s') = t_created (s_ticket s) \/ t_created (s_ticket s') = c_now c).
+Proof.
+  intros Hr Ho Ng Hm Ht. destruct (step ca c) as [ca1 o] eqn:S. cbn [fst snd] in *.
+  unfold step in S. rewrite Ng in S.
+  destruct (build ca c) as [ca' off p|ca' e|ca' p] eqn:B; [|inversion S; subst; discriminate Hr..].
+  destruct (v =? V13) eqn:EV.
+  - apply N.eqb_eq in EV. subst v. rewrite (Hm eq_refl) in S.
+    repeat match type of S with context [match ?x with _ => _ end] => destruct x eqn:? end;
+    inversion S; subst; clear S; try discriminate Hr;
+    repeat match goal with
+      | H : match ?x with _ => _ end = Some _ |- _ => destruct x eqn:?; try discriminate H
+      | H : Some _ = Some _ |- _ => inversion H; subst; clear H
+      end;
+    cbn [o_offer] in Ho; inversion Ho; subst;
+    (eexists; split; [apply lookup_put_same|]); unfold stored; cbn; auto.
+  - apply N.eqb_neq in EV. rewrite (Ht EV) in S.
+    repeat match type of S with context [match ?x with _ => _ end] => destruct x eqn:? end;
+    inversion S; subst; clear S; try discriminate Hr;
+    repeat match goal with
+      | H : match ?x with _ => _ end = Some _ |- _ => destruct x eqn:?; try discriminate H
+      | H : Some _ = Some _ |- _ => inversion H; subst; clear H
+      end;
+    cbn [o_offer] in Ho; inversion Ho; subst;
+    (eexists; split; [apply lookup_put_same|]); unfold stored; cbn; auto.
+Qed.
+
+Definition chain_inv (c1 : conn) (v B : N) (ca : cache) : Prop :=
+  exists s, lookup (c_name c1) ca = Some s /\
+    good (c_spec c1) (c_srv c1) (c_name c1) (c_skipverify c1) v (c_suite c1) s /\ unexpired s B.
+
+(* c continues the history started by c1: same configuration, its clock within the window ending at B *)
+Definition follows (c1 : conn) (v B : N) (c : conn) : Prop :=
+  same_config c1 c /\ spec_wf (c_spec c) (c_omit c) /\ (v = V13 -> hrr_ok c) /\ c_now c <= B /\ B <= c_now c + LIFETIME.
+
+Fixpoint chain_ok (key : N) (ca : cache) (h : list conn) : Prop :=
+  match h with
+  | [] => True
+  | c :: r =>
+    resumed (snd (step ca c)) = true /\
+    (exists k s, lookup key ca = Some s /\ o_offer (snd (step ca c)) = Some (k, s)) /\
+    chain_ok key (fst (step ca c)) r
+  end.
+
+Lemma chain_step c1 v B ca c :
+  negotiate (c_srv c1) (c_spec c1) = Some v ->
+  can_resume (c_spec c1) (c_srv c1) v ->
+  mem (c_suite c1) (sp_suites (c_spec c1)) = true ->
+  chain_inv c1 v B ca -> follows c1 v B c ->
+  resumed (snd (step ca c)) = true /\
+  (exists k s, lookup (c_name c1) ca = Some s /\ o_offer (snd (step ca c)) = Some (k, s)) /\
+  chain_inv c1 v B (fst (step ca c)).
+Proof.
+  intros Ng Cr Ms [s [L [G [U1 [U2 U3]]]]] [Sc [Wf [Hr [T1 T2]]]].
+  assert (Hm : v = V13 -> has_modes (c_spec c1) = true).
+  { intros ->. destruct Cr as [[E _]|[_ [_ [M _]]]]; [discriminate|exact M]. }
+  assert (Ht : v <> V13 -> has_ticket (c_spec c1) = true).
+  { intros N. destruct Cr as [[_ T]|[E _]]; [exact T|congruence]. }
+  assert (R : resumed (snd (step ca c)) = true /\ exists k, o_offer (snd (step ca c)) = Some (k, s)).
+  { destruct c as [sp2 sn2 ad2 sv2 now2 om2 sk2 su2 tl2]. destruct Sc as [E1 [E2 [E3 [E4 E5]]]].
+    cbn [c_spec c_srv c_skipverify c_suite c_now c_omit] in E1, E3, E4, E5, Wf, Hr, T1, T2. subst sp2 sv2 sk2 su2.
+    rewrite <- E2 in G, L.
+    assert (A1 : now2 <= s_notafter s) by exact (N.le_trans _ _ _ T1 U1).
+    assert (A2 : now2 <= s_useby s) by exact (N.le_trans _ _ _ T1 U2).
+    assert (A3 : now2 <= t_created (s_ticket s) + LIFETIME) by exact (N.le_trans _ _ _ T1 U3).
+    destruct Cr as [[-> T]|[-> [P [M Sg]]]].
+    - destruct (good_resumes12 _ _ sn2 ad2 _ _ _ _ now2 om2 tl2 G L Ng T Wf A1 A3) as [R O]. split; [exact R|eexists; exact O].
+    - assert (W : sp_go (c_spec c1) = false -> psk_positions_ok (sp_exts (c_spec c1)) = true /\ (count_ticket (sp_exts (c_spec c1)) <= 1)%nat).
+      { intros g. destruct (Wf g) as [A [B0 _]]. auto. }
+      assert (Hr' : sp_go (c_spec c1) = true \/ needs_hrr (c_srv c1) (c_spec c1) = false) by exact (Hr eq_refl).
+      destruct (good_resumes13 _ _ sn2 ad2 _ _ _ _ now2 om2 tl2 G L Ng P M W Sg Hr' Ms A1 A2 A3) as [R O].
+      split; [exact R|eexists; exact O]. }
+  destruct R as [R [k O]]. split; [exact R|]. split; [exists k, s; auto|].
+  destruct Sc as [E1 [E2 [E3 [E4 E5]]]].
+  assert (Hc : completed (snd (step ca c)) = true).
+  { unfold resumed in R. unfold completed. destruct (o_out (snd (step ca c))); try discriminate. reflexivity. }
+  assert (Ng' : negotiate (c_srv c) (c_spec c) = Some v) by (rewrite E1, E3; exact Ng).
+  assert (Hm' : v = V13 -> has_modes (c_spec c) = true) by (rewrite E1; exact Hm).
+  assert (Ht' : v <> V13 -> has_ticket (c_spec c) = true) by (rewrite E1; exact Ht).
+  destruct (step_stores_good ca c v Hc Ng' Hm' Ht') as [s' [L' [G' _]]].
+  destruct (step_resumed_expiry ca c v k s R O Ng' Hm' Ht') as [s'' [L'' [X1 [X2 X3]]]].
+  rewrite L' in L''. inversion L''; subst s''. clear L''.
+  rewrite E1, E2, E3, E4, E5 in G'. rewrite E2 in L'.
+  exists s'. split; [exact L'|]. split; [exact G'|]. unfold unexpired. rewrite X1, X2.
+  split; [exact U1|]. split; [exact T2|]. destruct X3 as [-> | ->]; [exact U3|exact T2].
+Qed.
+
+Lemma resume_chain c1 v B :
+  negotiate (c_srv c1) (c_spec c1) = Some v ->
+  can_resume (c_spec c1) (c_srv c1) v ->
+  mem (c_suite c1) (sp_suites (c_spec c1)) = true ->
+  forall rest ca, chain_inv c1 v B ca -> Forall (follows c1 v B) rest -> chain_ok (c_name c1) ca rest.
+Proof.
+  intros Ng Cr Ms rest. induction rest as [|c r IH]; intros ca I F; cbn [chain_ok]; [exact Logic.I|].
+  inversion F as [|c' r' Fc Fr]; subst.
+  destruct (chain_step c1 v B ca c Ng Cr Ms I Fc) as [R [O I']].
+  split; [exact R|]. split; [exact O|]. apply IH; assumption.
+Qed.
+
+(* the whole statement: first connection completes, the rest follow *)
+Lemma resume_all ca c1 rest v B :
+  completed (snd (step ca c1)) = true ->
+  negotiate (c_srv c1) (c_spec c1) = Some v ->
+  can_resume (c_spec c1) (c_srv c1) v ->
+  mem (c_suite c1) (sp_suites (c_spec c1)) = true ->
+  (forall s, lookup (c_name c1) (fst (step ca c1)) = Some s -> unexpired s B) ->
+  Forall (follows c1 v B) rest ->
+  chain_ok (c_name c1) (fst (step ca c1)) rest.
+Proof.
+  intros Hc Ng Cr Ms U F.
+  assert (Hm : v = V13 -> has_modes (c_spec c1) = true).
+  { intros ->. destruct Cr as [[E _]|[_ [_ [M _]]]]; [discriminate|exact M]. }
+  assert (Ht : v <> V13 -> has_ticket (c_spec c1) = true).
+  { intros N. destruct Cr as [[_ T]|[E _]]; [exact T|congruence]. }
+  destruct (step_stores_good ca c1 v Hc Ng Hm Ht) as [s [L [G _]]].
+  apply (resume_chain c1 v B Ng Cr Ms); [|exact F]. exists s. split; [exact L|]. split; [exact G|]. apply U, L.
+Qed.
